@@ -173,16 +173,21 @@ def r3_name_bt(ctx):
     f = prog.find_func("name_BradleyTerry._BT_pdf")
     dct = f.params[1]
     comps = [n for n in astx.walk_own(f.node) if isinstance(n, ast.DictComp)]
-    pull = prog.nested_func(f, "pull_perm")
-    pr = [n for n in astx.walk_own(pull.node) if isinstance(n, ast.Return)]
-    okpull = len(pr) == 1 and re.fullmatch(rf"\[{dct}\[(\w+)\] for \1 in {pull.params[0]}\]", astx.u(pr[0].value)) is not None
+    # the supports in permutation order: through the nested helper pull_perm(perm), or written out [dct[c] for c in perm]
+    has_pull = f"{f.qualname}.<locals>.pull_perm" in prog.functions
+    if has_pull:
+        pull = prog.nested_func(f, "pull_perm")
+        pr = [n for n in astx.walk_own(pull.node) if isinstance(n, ast.Return)]
+        okpull = len(pr) == 1 and re.fullmatch(rf"\[{dct}\[(\w+)\] for \1 in {pull.params[0]}\]", astx.u(pr[0].value)) is not None
+    else:
+        okpull = True
     good = False
     if len(comps) == 2:
         t, nrm = comps
         g = t.generators[0]
         perm = astx.u(g.target)
         good = astx.u(g.iter) in (f"it.permutations({dct}.keys())", f"it.permutations({dct})") and astx.u(t.key) == perm \
-            and astx.u(t.value) == f"self._make_pow(pull_perm({perm}))" and not g.ifs
+            and (astx.u(t.value) == f"self._make_pow(pull_perm({perm}))" if has_pull else astx.u(t.value) == astx.A(f"self._make_pow([{dct}[c] for c in {perm}])")) and not g.ifs
         summ = astx.unique_def(f.node, "summ")
         tname = astx.u(astx.stmt_of(t, astx.parents(f.node)).targets[0])
         g2 = nrm.generators[0]
